@@ -79,6 +79,9 @@ def new_app(front, registerer=None, debug_log=False):
     return app, face
 
 
+_DELIVER = {'n': 0}
+
+
 def deliver(sess, face, wire, timers_now=True, before_run=None):
     """Hand one packet to the application's receive callback as a transport would and settle.
     Returns the exception that escaped the awaited callback (None if it returned normally)."""
@@ -89,6 +92,16 @@ def deliver(sess, face, wire, timers_now=True, before_run=None):
         # the datagram face is exercised separately in C06): nothing is delivered
         return None
     box = {}
+    # the buffer type is the transport's choice: the stream / datagram faces hand over bytes, DummyFace and custom faces
+    # whatever they were given - bytes, a bytearray, a view of either (seed round 7: name-tree keys taken from a writable view)
+    _DELIVER['n'] += 1
+    k = _DELIVER['n'] % 5
+    if k == 1:
+        wire = bytearray(wire)
+    elif k == 2:
+        wire = memoryview(bytearray(wire))
+    elif k == 3:
+        wire = memoryview(bytes(wire))
 
     async def go():
         try:
